@@ -2,13 +2,15 @@ CHECK = {
     "suites": [suite("requests", "c12", 4000, 40000, stdin=True, timeout={"quick": 600, "thorough": 2400})],
     "gen": [{"pkg": "extract_c12", "out": "lean/ClusterVerif/Gen/C12.lean"}],
     "lean_sources": ["ClusterVerif/Model/C12.lean", "ClusterVerif/Spec/C12.lean", "ClusterVerif/Lemmas/C12.lean",
-                     "ClusterVerif/Gen/C12.lean"],
+                     "ClusterVerif/Gen/C12.lean", "ClusterVerif/Model/C12Flow.lean", "ClusterVerif/Lemmas/C12Flow.lean"],
     "rule": "one case = one HTTP request written byte-for-byte to a fresh default-configured proxy: 42% hijacked endpoints (pin add/rm/ls in both "
             "argument styles, pin update with 0-3 args, add with multipart bodies and ~25 options, repo stat/gc; valid and invalid paths/CIDs in "
             "several spellings and escapings; scripted RPC failures), 36% arbitrary other requests (7+5 methods, random segments around the API "
             "vocabulary, raw queries, binary bodies), 14% near misses of the hijacked endpoints, 8% malformed targets/queries; about 1 case in 150 (and 11 "
             "corpus lines) is run against a proxy configured with small timeouts (read_header_timeout 200-300 ms, idle_timeout 50 ms-60 s) and a daemon "
-            "that starts answering later than every one of them and/or pauses in the middle of its body (tokens cf= dl=); "
+            "that starts answering later than every one of them and/or pauses in the middle of its body (tokens cf= dl=); half of the repo/stat cases "
+            "with peers let a random subset of the per-peer RepoStat calls fail (token sb=), repo/gc cases with stream-errors=true let the collection "
+            "report a failed peer and/or a key error (token ge=); "
             "non-trivial = the request target decodes (the property constrains it); distinct by case line",
     "trusted_base": ["recording fake IPFS daemon (net/http server recording RequestURI, headers, body) and recording fake Cluster/IPFSConnector/Consensus "
                      "gorpc services with scripted answers and failures",
@@ -18,14 +20,19 @@ CHECK = {
                      "EscapedPath/ParseQuery) and tied by the correspondence run only",
                      "translator harness/extract_c12 (go/ast over ipfsproxy.go: hijack table; relay set-up of New = transport of the reverse proxy "
                      "resolved through one local / one constructor function / a clone of the default transport, its fields as duration sources, "
-                     "http.Server fields, handler chain)",
+                     "http.Server fields, handler chain; flow.go: bodies of the six hijack handlers as flat lists of guarded steps — checks, RPC calls "
+                     "with service/method/argument expression and their error arm (status, number of answers, X-Stream-Error, return), assignments "
+                     "to request structures, response writes; single-assignment locals substituted; `if c {…; continue}; rest` read as if/else; a "
+                     "`range` body read once per element; unknown shapes fail closed)",
                      "net/http semantics of the transport fields: only ResponseHeaderTimeout (non-zero) bounds the wait for an accepted request; "
                      "http.DefaultTransport sets none"],
     "assumptions": ["default proxy configuration (ExtractHeadersPath=/api/v0/version, no tracing) except read_header_timeout/idle_timeout in the slow-daemon "
                     "cases; read_timeout = write_timeout = 0 (their defaults); one fresh proxy per request",
                     "request targets are origin-form; CONNECT, OPTIONS * and absolute-form targets are not generated",
                     "add options expire-at/expire-in/pin-update/origins and shard=true are outside the model (sharded adding is C13's)",
-                    "boolean options are constrained by the Spec only in their documented spellings true/false"],
+                    "boolean options are constrained by the Spec only in their documented spellings true/false",
+                    "repo/gc collections that report peer/key errors are generated only with stream-errors=true until the proposed finding K12d "
+                    "(X-Stream-Error after the collection ran; notes/C12.md Round 8b) is registered; VERIF_C12_GCERR=1 generates the others"],
 }
 META = {
     "text": "The hijack table of ipfsproxy.New is regenerated from the source on every run and proved (decide) to be exactly the frozen expectation; "
@@ -37,10 +44,20 @@ META = {
             "configuration field or constant, the client-facing server's timeouts and handler chain) is translated semantically and INTERPRETED by "
             "the model: it is proved that today's set-up puts no bound on the daemon's time to first byte under any configuration, hence a relayed call "
             "is answered with the daemon's answer however slow the daemon is, and that the alternative 'ResponseHeaderTimeout = read_header_timeout' "
-            "breaks the relay clause on every slow call (refutation for all inputs). The model is tied to the code by sending thousands of seeded raw HTTP requests through the real proxy between a "
+            "breaks the relay clause on every slow call (refutation for all inputs). The bodies of the six hijack handlers (pinOp, pinLs, pinUpdate, add, repoStat, "
+            "repoGC) are translated (go/ast) into decision structures — argument checks, RPC calls with their argument expressions and error arms, "
+            "assignments, response writes, under the conditions of the source — that a Lean interpreter executes for any valuation of the conditions and "
+            "any failure script: it is proved for EVERY well-formed structure (induction, not enumeration) that once an error is detected or answered "
+            "nothing is issued any more and an error status is the last thing a handler does, that today's six structures are well formed, answer exactly "
+            "once, issue on success exactly the intended RPCs with the intended argument expressions (Unpin iff unpin is not false / pin=false, PinGet vs "
+            "Pins, only-hash=true adds nothing, repo/stat sums a peer iff its call succeeded), that error-means-no-operation holds at full strength for "
+            "pin add/rm/ls and repo/stat and fails for pin/update, add and repo/gc exactly through the trailing Unpin resp. the final X-Stream-Error, "
+            "that a dropped return, an arm answering 200 or an ignored error break these statements (refutations), and that the hand-written handler "
+            "models agree with the interpreted structures (status and RPC outcomes) on every environment. The model is tied to the code by sending thousands of seeded raw HTTP requests through the real proxy between a "
             "recording daemon and recording cluster RPC services, comparing with the model and evaluating the Lean property clauses on the real observations.",
     "note": "Trusted: Lean kernel, hand-written model/spec, harness fakes and dependency oracles (go-path, go-cid, multipart/DAG-builder acceptance), "
             "translator. net/http, httputil.ReverseProxy and gorilla/mux are modelled, not verified.",
-    "technique": "Lean 4 theorems over a request-routing/handler model + generated route table and relay set-up (decide, interpreted by the model) + "
+    "technique": "Lean 4 theorems over a request-routing/handler model + generated route table, relay set-up and handler decision structures "
+                 "(go/ast translators; interpreted by the model; induction over all well-formed structures + finite tables lifted to all valuations) + "
                  "differential correspondence per HTTP request incl. slow-daemon cases",
 }
